@@ -114,25 +114,64 @@ func c03R1(p *core.Prog, r *core.Report, trav *ssa.Function) {
 						}
 					}
 				}
-				// (b) the closure captures a value from the getter
-				if mc, isMC := gi.Call.Value.(*ssa.MakeClosure); isMC {
-					for _, bnd := range mc.Bindings {
-						for _, o := range core.Origins(bnd, core.SliceOpts{FieldsThrough: true}) {
-							if o.Kind == core.OCall && o.Call == g {
+				// (b) a descriptor handed to a copy call inside the closure comes from the getter
+				lit := closureOf(gi.Call.Value)
+				if lit == nil {
+					continue
+				}
+				core.Calls(lit, func(c ssa.CallInstruction) {
+					gfn := core.CalleeFn(c)
+					if gfn == nil || (gfn != trav && gfn.Name() != "imageCopyBlob") {
+						return
+					}
+					d := core.CallArg(c, 4)
+					var vals []ssa.Value
+					for _, o := range core.Origins(d, core.SliceOpts{}) {
+						switch o.Kind {
+						case core.OCall:
+							if o.Call == g {
 								ok = true
 							}
+						default:
+							vals = append(vals, o.Val)
 						}
-						if al, isAl := bnd.(*ssa.Alloc); isAl {
+					}
+					// values captured from the traversal: follow them in the parent
+					for _, fv := range lit.FreeVars {
+						b := core.FreeVarBinding(fv)
+						if b == nil {
+							continue
+						}
+						used := false
+						for _, o := range core.Origins(d, core.SliceOpts{}) {
+							if o.Val == ssa.Value(fv) || (o.Kind == core.OAlloc && o.Val == b) {
+								used = true
+							}
+							if u, isU := o.Val.(*ssa.UnOp); isU && u.X == ssa.Value(fv) {
+								used = true
+							}
+						}
+						if !used && !reachesValue(d, fv) {
+							continue
+						}
+						var srcs []ssa.Value
+						if al, isAl := b.(*ssa.Alloc); isAl {
 							for _, st := range core.StoresToCell(al) {
-								for _, o := range core.Origins(st.Val, core.SliceOpts{FieldsThrough: true}) {
-									if o.Kind == core.OCall && o.Call == g {
-										ok = true
-									}
+								srcs = append(srcs, st.Val)
+							}
+						} else {
+							srcs = append(srcs, b)
+						}
+						for _, sv := range srcs {
+							for _, o := range core.Origins(sv, core.SliceOpts{FieldsThrough: true}) {
+								if o.Kind == core.OCall && o.Call == g {
+									ok = true
 								}
 							}
 						}
 					}
-				}
+					_ = vals
+				})
 			}
 		}
 		return ok
@@ -470,4 +509,43 @@ func c03R6(p *core.Prog, r *core.Report) {
 	if n == 0 {
 		r.MissingAnchor(rule, "slice-returning functions")
 	}
+}
+
+// reachesValue: the backward slice of v (through loads, phis and extracts) contains target.
+func reachesValue(v ssa.Value, target ssa.Value) bool {
+	seen := map[ssa.Value]bool{}
+	var walk func(x ssa.Value, d int) bool
+	walk = func(x ssa.Value, d int) bool {
+		if x == nil || d > 10 || seen[x] {
+			return false
+		}
+		seen[x] = true
+		if x == target {
+			return true
+		}
+		switch y := x.(type) {
+		case *ssa.UnOp:
+			return walk(y.X, d+1)
+		case *ssa.Phi:
+			for _, e := range y.Edges {
+				if walk(e, d+1) {
+					return true
+				}
+			}
+		case *ssa.Extract:
+			return walk(y.Tuple, d+1)
+		case *ssa.FieldAddr:
+			return walk(y.X, d+1)
+		case *ssa.Field:
+			return walk(y.X, d+1)
+		case *ssa.Alloc:
+			for _, st := range core.StoresToCell(y) {
+				if walk(st.Val, d+1) {
+					return true
+				}
+			}
+		}
+		return false
+	}
+	return walk(v, 0)
 }
